@@ -341,6 +341,15 @@ pub enum TOp {
     Spend { who: u8, denom: u8, amount: u128, receiver: u8, channel: Option<u8> },
     SetTrader { who: u8, trader: u8 },
     SetRoutes { who: u8, routes: Vec<Vec<RouteHop>> },
+    /// one UpdateConfig carrying any combination of sections; `RSel::Resend` supplies the stored allow-list again
+    Update { who: u8, trader: Option<u8>, routes: RSel },
+}
+
+#[derive(Clone, Debug, Serialize, serde::Deserialize)]
+pub enum RSel {
+    Keep,
+    Resend,
+    New(Vec<Vec<RouteHop>>),
 }
 
 #[derive(Clone, Debug, Serialize, serde::Deserialize)]
@@ -380,6 +389,12 @@ pub fn tcase() -> BoxedStrategy<TCase> {
         4 => (who(), 0u8..5, amount(), 0u8..14, proptest::option::of(0u8..3)).prop_map(|(who, denom, amount, receiver, channel)| TOp::Spend { who, denom, amount, receiver, channel }),
         1 => (who(), 0u8..4).prop_map(|(who, trader)| TOp::SetTrader { who, trader }),
         1 => (who(), proptest::collection::vec(route(), 0..4)).prop_map(|(who, routes)| TOp::SetRoutes { who, routes }),
+        2 => (
+            prop_oneof![4 => Just(0u8), 1 => Just(1u8), 1 => Just(3u8)],
+            proptest::option::weighted(0.7, 0u8..4),
+            prop_oneof![1 => Just(RSel::Keep), 2 => Just(RSel::Resend), 2 => proptest::collection::vec(route(), 0..4).prop_map(RSel::New)]
+        )
+            .prop_map(|(who, trader, routes)| TOp::Update { who, trader, routes }),
     ];
     (proptest::collection::vec(route(), 0..6), any::<bool>(), any::<bool>(), proptest::collection::vec(op, 1..25))
         .prop_map(|(routes, explicit_admin, explicit_trader, ops)| TCase { routes, explicit_admin, explicit_trader, ops })
@@ -652,6 +667,34 @@ pub fn check_tcase(c: &TCase, agg: &mut Agg) -> Result<(), String> {
                 }
                 if sender == admin {
                     allowed = routes.clone();
+                }
+            }
+            TOp::Update { who: w, trader: t, routes } => {
+                let sender = who(*w, &admin, &trader);
+                let new_trader = t.map(|t| people[t as usize % 4].clone());
+                let new_routes: Option<Vec<Vec<RouteHop>>> = match routes {
+                    RSel::Keep => None,
+                    RSel::Resend => Some(allowed.clone()),
+                    RSel::New(r) => Some(r.clone()),
+                };
+                let res = tb.exec(
+                    &sender,
+                    TMsg::UpdateConfig { trader: new_trader.clone(), allowed_swap_routes: new_routes.as_ref().map(|rs| rs.iter().map(|r| to_routes(r)).collect()) },
+                );
+                let what = format!("step {idx} update config trader={new_trader:?} routes={routes:?} by {sender} (admin {admin})");
+                if res.is_ok() != (sender == admin) || matches!(res, Err(Err(_))) {
+                    return Err(format!("{what}: {:?}", res.map(|_| ())));
+                }
+                if sender == admin {
+                    if let Some(t) = new_trader {
+                        if t != trader {
+                            *agg.counters.entry("trader_rotated_in_combined_update".into()).or_insert(0) += 1;
+                        }
+                        trader = t;
+                    }
+                    if let Some(r) = new_routes {
+                        allowed = r;
+                    }
                 }
             }
         }
